@@ -157,6 +157,21 @@ def renderings(ctx, out):
         src = gen.rand_src(rng, prof)
         if rng.random() < 0.3:  # long times: days in str(timedelta)
             src.tempo = [(0, rng.choice([1, 2, 10]))] + src.tempo[1:]
+        if rng.random() < 0.15:  # very long times (still far inside the timedelta range): 8-digit ticks at 0.001 BPM, resolution 1
+            src.res = 1
+            src.meta["resolution"] = 1
+            src.tempo = [(0, 1)]
+            f = rng.choice([1000, 5000, 9000])
+            src.tss = [(t * f, u, l) for t, u, l in src.tss]
+            src.gevents = [(min(t * f, 99_999_999), k, v) for t, k, v in src.gevents]
+            for tr in src.tracks:
+                for gq in tr.groups:
+                    gq.tick = min(gq.tick * f, 90_000_000) if gq.tick * f < 90_000_000 else gq.tick
+                tr.groups.sort(key=lambda gq: gq.tick)
+                seen = set()
+                tr.groups = [gq for gq in tr.groups if not (gq.tick in seen or seen.add(gq.tick))]
+                tr.phrases = []
+                tr.tevents = []
         texts.append(gen.render(src, rng, prof).text)
     mod = driver.run_parallel([f"strs {driver.cps(t)}" for t in texts])
     for t, m in zip(texts, mod):
